@@ -431,7 +431,6 @@ func (g *Gen) stmt(d int) []Stmt {
 	}
 }
 
-
 func (g *Gen) unfree(n string) {
 	p := n[:1]
 	fl := g.freed[p]
